@@ -370,6 +370,32 @@ _ADDED3 = {
            "that looks into the names (f-strings, split, join) is additionally evaluated on names built from its own separators: a counter-example is a violation, none "
            "leaves the rule undecided.",
 }
+_ADDED4 = {
+    "C01": " (R14) No constructor stores a value computed from locations written outside constructors (the latest member of a link group is computed when it is read; shared "
+           "C03.H7); R4 also reads a selection function looked up in a {relation-to-group: min / max} table.",
+    "C02": " (L11) Containers that graph / composite classes change through self are bound per instance.",
+    "C03": " (H7) no constructor stores a value computed from locations written outside constructors (call-graph read closure against the write catalogue); (H8) tables keyed by "
+           "expressions whose static type admits a sub-circuit exist only in the reviewed functions. H1 treats clearing functions and exit-clearing context managers (generator "
+           "or class form) as one fixed point.",
+    "C06": " (U7) = C03.H7 on the structure modules.",
+    "C07": " (A11) Library constructors hand component builders the registry of the circuit they return (or of the circuit the component is added to).",
+    "C09": " (P10) The single-experiment constructors hand the caller's initial_state container to the preparation builder unfiltered.",
+    "C10": " A class of the specification table that no longer follows the global setting of its kind is a T4 violation.",
+    "C11": " (F7) graph / composite containers are per instance; (F8) the marker that closes a QEC block covers the same qubits as the builder's barriers (sibling agreement).",
+    "C12": " (X7) involvement of a qubit is decided by name equality of identifiers (shared C19.I3; identity tests are told apart from equality tests).",
+    "C13": " (M6) apply_modifiers / flatten hand back the same structure object (shared C07.A9).",
+    "C16": " (Q11) ParityGroup.contains decides membership with `in` on identifier objects over the group's own qubits and edges.",
+    "C17": " (Y12) RepetitionCodeDescription.qubit_ids lists every data and ancilla qubit exactly once: the accessor's statements are interpreted on lists of opaque symbols for "
+           "all length pairs up to 4 x 4 (qcolint.listinterp). Y8 also shares C19.I3; Y9 also shares C16.Q2 and Q11.",
+    "C18": " (W6) IRectTransform.center_pivot agrees with top/bot/left/right_pivot for all 9 alignments (symbolic pivot, width, height).",
+    "C19": " (I6) = C16.Q11. `is` between ordinary values is an identity atom of its own; equal names are taken as distinct objects when a formula tests identity.",
+}
+_PY = (" Every check also runs five lints for slips of the Python data model (qcolint/pylints.py; rules <id>.PY1..PY5) over the files the property's anchors name: "
+       "late-binding closures that escape their loop, one-shot iterators consumed twice, containers stored and then changed in place, replicated / default mutables, and truth "
+       "tests of Optional[T] values whose T has falsy members. Each reports only the shape in which the slip is certain.")
+for _k in list(CLAIMS):
+    CLAIMS[_k]["text"] = CLAIMS[_k]["text"] + _ADDED4.get(_k, "")
+NOTES += _PY
 for _d in (_ADDED, _ADDED3):
     for _k, _v in _d.items():
         if _v:
